@@ -107,6 +107,20 @@ def check_case(rec, case):
                     rec.violation('tm_simulate_word:too_long', 'more than max_steps steps recorded', word=w, max_steps=k, rows=len(tr))
             except Exception:
                 pass
+    if case.get('requery') and RT[3]:
+        # the same OBJECT after an in-place change of one transition and of the accepting state
+        (p_, a_, q_, b_, d_) = RT[3][0]
+        T.delta[(p_, a_)] = (RT[5], b_, 'L' if d_ == 'R' else 'R')
+        for w in words[:8]:
+            for k in (0, 1, 3, 8, 50):
+                o = call(ta.tm_accepts_word, T, w, k)
+                if not o.ok:
+                    report_failure(rec, o, 'tm_accepts_word', word=w, max_steps=k, after_in_place_change=True)
+                    break
+                o = call(ta.tm_simulate_word, T, w, k)
+                if not o.ok:
+                    report_failure(rec, o, 'tm_simulate_word', word=w, max_steps=k, after_in_place_change=True)
+                    break
     # default budget (1000) through the default argument
     if words:
         o = call(ta.tm_accepts_word, T, words[-1])
@@ -167,7 +181,7 @@ def gen_cases(rec, rng, tier):
         blank = rng.choice(['_', '□', 'B'])
         RT = random_tm(rng, rng.randint(1, 4), rng.randint(0, 2), rng.randint(0, 2), blank, p_def=rng.choice([0.4, 0.7, 1.0]),
                        halting_moves=rng.random() < 0.2)
-        yield {'cls': 'random_tm', 'ref': RT, 'n': 4 if thorough and len(RT[1]) <= 2 else 3}
+        yield {'cls': 'random_tm', 'ref': RT, 'n': 4 if thorough and len(RT[1]) <= 2 else 3, 'requery': True}
     for _ in range(10 if thorough else 4):
         for h in ('qa', 'qr'):
             RT = random_tm(rng, 2, 1, 2, '_', q0_halting=h, halting_moves=True)
